@@ -227,7 +227,7 @@ class ViscousDrag(om.ExplicitComponent):
             elif self.k_lam < 1:
                 dcd__dRe = self.k_lam * (dcdlam_tr__dRe - dcdturb_tr__dRe) + dcdturb_total__dRe
             else:
-                dcd__dRe = 0.0
+                dcd__dRe = self.k_lam * dcdlam_tr__dRe
             ddoq__dRe = 2 * chords * dcd__dRe
 
             dDoq__dRe = np.sum(widths * ddoq__dRe * FF)
